@@ -1,3 +1,23 @@
-From DSG Require Import Base Dsg Sel SelP Problem.
-Theorem C14_placeholder : True. Proof. exact I. Qed.
-Print Assumptions C14_placeholder.
+(* C14 — the fast selection-choice encoder is sound and covers the design space. *)
+From DSG Require Import Base Dsg Sel SelP DesVar Problem ProblemP.
+
+(* soundness: whatever passes decode_witness is an architecture the graph semantics admit *)
+Theorem C14_sound : forall g E k x x' act inst dvv s,
+  decode_witness g E k x x' act inst dvv = Some (Some s) ->
+  Adm g s /\ (forall n, In n inst <-> (Reach g s n /\ is_choice g n = false)).
+Proof. exact decode_instance_is_closure. Qed.
+Print Assumptions C14_sound.
+
+(* the reference set both encoders are compared with is exactly the admissible assignments *)
+Theorem C14_reference_sound : forall g l, enum_adm g = Some l -> forall s, In s l -> Adm g s.
+Proof. exact enum_adm_sound. Qed.
+Print Assumptions C14_reference_sound.
+
+Theorem C14_reference_complete : forall g l, enum_adm g = Some l -> forall s, Adm g s -> exists s', In s' l /\ same s' s.
+Proof. exact enum_adm_complete. Qed.
+Print Assumptions C14_reference_complete.
+
+(* every admissible architecture can be produced by greedy resolution in some legal order (what the fast encoder does) *)
+Theorem C14_greedy_reaches_all : forall g l, enum_adm g = Some l -> forall s, Adm g s -> exists s', Run g s' /\ same s' s.
+Proof. exact adm_has_run. Qed.
+Print Assumptions C14_greedy_reaches_all.
